@@ -683,8 +683,26 @@ func (c *Ctx) ruleHandlers() {
 		inv := map[string]bool{}
 		var raw [][3]interface{}
 		for _, pa := range c.enum(rule, fn, PathOpts{}) {
-			// walk steps in order, tracking the last positive fact
+			// walk steps in order, tracking the last positive fact. A positive test for a
+			// value-bearing type (string, []byte, wrapper values, string slices) creates an
+			// obligation: the matching value handler must run before the walk moves on to
+			// another test, unless the path fails with an error (must-pass-through).
 			last := ""
+			pending, pendingWant := "", ""
+			var pendingAt ssa.Instruction
+			leafHandler := func(f string) string {
+				switch f {
+				case "type==string", "type==[]uint8", "type==wrapperspb.StringValue", "type==wrapperspb.BytesValue":
+					return "filterValue"
+				case "type==[]string", "type==[]*string", "type==[][]uint8":
+					return "filterSlice"
+				}
+				return ""
+			}
+			skipped := func(where ssa.Instruction) {
+				r.Bad(rule, p.ShortFn(fn)+":arm-skips-handler:"+pending, p.InstrPos(pendingAt),
+					"after a positive test "+pending+" the walk can move on (at "+p.InstrPos(where)+") without calling "+pendingWant+": such a value is forwarded unprotected and without an error")
+			}
 			atomAt := map[*ssa.If]Atom{}
 			for _, at := range pa.Atoms {
 				atomAt[at.If] = at
@@ -695,19 +713,34 @@ func (c *Ctx) ruleHandlers() {
 					if !ok {
 						continue
 					}
-					if f := typeFact(at); f != "" {
-						last = f
-					}
-					// Taggable assertion result used as a condition
+					f := typeFact(at)
 					if at.Op == "true" && !at.Neg && strings.Contains(at.L.String(), "Assert[encrypt.Taggable]") {
-						last = "taggable"
+						f = "taggable"
+					}
+					if f != "" {
+						if pending != "" && f != pending {
+							skipped(s.In)
+							pending = ""
+						}
+						last = f
+						if h := leafHandler(f); h != "" {
+							pending, pendingWant, pendingAt = f, h, s.In
+						}
 					}
 					continue
 				}
 				if ci, ok := s.In.(ssa.CallInstruction); ok {
 					if h, ok := handlers[calleeName(ci.Common())]; ok && last != "" {
 						raw = append(raw, [3]interface{}{last, h, loopDepth(s.In.Block())})
+						if h == pendingWant {
+							pending = ""
+						}
 					}
+				}
+			}
+			if pending != "" {
+				if rv := pa.RetVals(); rv != nil && isNilConst(rv[len(rv)-1]) {
+					skipped(pa.End)
 				}
 			}
 		}
@@ -1250,6 +1283,13 @@ func runC16(c *Ctx) {
 			}
 			held := must.At(in)
 			r.Check(held["encrypt.Filter.l"] == 'W', "C16.atomic", p.ShortFn(fn)+":write:"+nm, p.InstrPos(in), "key material replaced under the write lock", "key material field "+nm+" is written without the filter's write lock")
+			// salt/info taken from a payload are stored as FRESH copies; the old buffers (which the
+			// caller, or another Filter built from the same slice, may still use) are never written into
+			if name == "Process" && (nm == "HmacSalt" || nm == "HmacInfo") {
+				vt := p.NewTerms(nil).Of(st.Val)
+				r.Check(vt.Is("Make", "slice"), "C16.atomic", p.ShortFn(fn)+":fresh-copy:"+nm, p.InstrPos(in), "rotated "+nm+" is a freshly allocated copy",
+					"the rotated "+nm+" is "+vt.String()+", not a fresh copy: writing the new value through the old buffer changes memory that the caller or another Filter still uses as its salt/info (their HMACs silently change)")
+			}
 		})
 	}
 	r.Floor("C16.atomic", 6)
